@@ -420,16 +420,10 @@ def classify(case: dict, res: dict) -> dict:
     msg = res.get("msg", "")
     kind = "other"
     if res.get("clause") == "total":
-        if exc == "TypeError" and "issubclass() arg 1 must be a class" in msg and last.get("selftype") and not last.get("final"):
+        if exc == "TypeError" and "issubclass() arg 1 must be a class" in msg and last.get("selftype"):
             kind = "self-type"
-        elif exc == "TypeError" and "issubclass() arg 1 must be a class" in msg and last.get("final") and not last.get("selftype"):
-            kind = "final-type"
         elif exc == "TypeError" and "doesn't apply to a 'CC' object" in msg and last.get("slots_hit"):
             kind = "slots-descriptor-default"
-        elif (exc in ("SyntaxError", "NameError") or (exc == "InvalidFieldValue" and "_default.<locals>.CC" in msg)) \
-                and last.get("omit_default_container"):
-            # (inside a Union the NameError of the spliced repr is re-raised by the union packer as InvalidFieldValue)
-            kind = "omit-default-repr-splice"
         elif exc == "ValueError" and msg.startswith("mutable default") and last.get("nt_mutable"):
             kind = "nt-mutable-default"
         elif exc in ("RecursionError", "CaseTimeout") and last.get("cyclic") and not last.get("field_strategy_unannotated") and not last.get("field_override_container"):
